@@ -103,10 +103,14 @@ func zzH(f *os.File) *zzHandle {
 func zzFileRead(f *os.File, p []byte) (int, error) {
 	h := zzH(f)
 	zz.Assert(h.closed == 0, "read from a closed file")
-	if h.pos >= len(h.g.data) {
+	data := h.g.data
+	if h.g.gz {
+		data = append([]byte{0x1f, 0x8b, 0x08}, h.g.data...) // the raw bytes of a gzip member are not its payload
+	}
+	if h.pos >= len(data) {
 		return 0, io.EOF
 	}
-	n := copy(p, h.g.data[h.pos:])
+	n := copy(p, data[h.pos:])
 	h.pos += n
 	return n, nil
 }
